@@ -51,11 +51,12 @@ PROPS = {
                 "frames of 16 KiB..2.1 MB; non-trivial = low nibble != 0",
     },
     "C10": {
-        "suites": [("write", 3000, 60000), ("render", 1500, 20000)],
+        "suites": [("write", 3000, 60000), ("render", 1500, 20000), ("fill", 1200, 30000)],
         "oracle": (3000, 60000),
         "rule": "packets of every type (C01 domain and malformed-but-constructible) x writers: accept, fail before writing, "
                 "accept k bytes for every k < frame length (frames <= 64 bytes exhaustively); String size; read-only calls inside the history; every string field with "
-                "65533..65535 bytes; property sections of exactly 128k bytes; Undefined values that carry data; non-trivial = at least one setter call",
+                "65533..65535 bytes; property sections of exactly 128k bytes; Undefined values that carry data; the positional encoders (fill/fillProp of every wire type, fill of every packet type) on nil, short-by-one, exact and longer "
+                "patterned buffers at offsets 0..130 against the two-pass model; non-trivial = at least one setter call",
     },
     "C11": {
         "suites": [("write", 3000, 60000), ("hist", 1500, 30000)],
